@@ -211,6 +211,28 @@ def table_u8(engine, name):
     return getattr(engine, key)
 
 
+def table_u8_select(engine, name, idx):
+    """value of the compiled u8 table `name` at a 64-bit index term, as a run-length If-chain (equal consecutive entries
+    are one range test): far cheaper for the solver than a 256-store array"""
+    raw = engine.statics[name]["bytes"]
+    runs = []
+    for i, b in enumerate(raw):
+        if runs and runs[-1][2] == b and runs[-1][1] == i - 1:
+            runs[-1][1] = i
+        else:
+            runs.append([i, i, b])
+    # most frequent value as the default
+    from collections import Counter
+    default = Counter(raw).most_common(1)[0][0]
+    out = z3.BitVecVal(default, 8)
+    for lo, hi, b in reversed(runs):
+        if b == default:
+            continue
+        cond = idx == z3.BitVecVal(lo, 64) if lo == hi else z3.And(z3.UGE(idx, z3.BitVecVal(lo, 64)), z3.ULE(idx, z3.BitVecVal(hi, 64)))
+        out = z3.If(cond, z3.BitVecVal(b, 8), out)
+    return out
+
+
 def bytes_of(engine, v):
     """Concrete byte content behind a &[u8]/&str operand, or None."""
     if isinstance(v, Opaque) and v.ty == "strlit":
